@@ -733,6 +733,9 @@ func (s *stack) buildRequest(spec reqSpec, tid int) (*http.Request, chi.Router, 
 	if method == "GET" {
 		navHeaders(req)
 	}
+	// what a client may legally repeat on every request: the same correlation id and trace context on all of them
+	req.Header.Set("X-Request-Id", "same-correlation-id-on-every-request")
+	req.Header.Set("Traceparent", "00-0af7651916cd43dd8448eb211c80319c-b7ad6b7169203331-01")
 	req.Header.Set("Authorization", "Bearer forged-by-client")
 	req.Header.Set("X-Wonderwall-Id-Token", "forged-id-token")
 	if spec.cookie != "" {
